@@ -2601,6 +2601,11 @@ PROCS = [
                  ("species", "Unit"), ("exclude_flag", "Unit")],
          ret=("Except", "OvErr", ("Prod", ("List", ("Rec", "OvRec")), ("List", ("Rec", "OvRec")))), records=INI_REC, implicit=[("removeWs", ("Fun", ["Str"], "Str"))],
          locals={"override_dict": ("ODict", ("Prod", "Str", "Str"), ("Rec", "OvRec")), "additional_list": ("List", ("Rec", "OvRec"))}),
+    # ---- C13: which species list, and in which mode, the command line hands to the filtered view
+    dict(name="cli_species_choice", file="tools/potable/__init__.py", func="_do_tabulation", truncate_at="cp = _make_config_parser(", result_vars=["species_list", "exclude_flag"],
+         params=[("p", "Unit"), ("args", ("Rec", "CliArgs"))], ret=("Prod", ("Opt", ("List", "Str")), "Bool"), drop_logging=True,
+         records={"CliArgs": {"include_species": ("include_species", ("Opt", ("List", "Str"))), "exclude_species": ("exclude_species", ("Opt", ("List", "Str")))}},
+         locals={"species_list": ("Opt", ("List", "Str"))}),
     # ---- C18: plotToFile
     dict(name="plot_to_file", file="__init__.py", func="plotToFile", writer=True, inout="fileobj",
          params=[("fileobj", "Stream"), ("lowx", "Rat"), ("highx", "Rat"), ("func", ("Rec", "FnRec")), ("steps", "Int")], ret="Stream", records=EAM_REC, methods=EAM_METHODS),
@@ -2890,6 +2895,12 @@ deriving Repr, DecidableEq
 inductive OvErr where
   | missing | exists | badValue | malformedOption
 deriving DecidableEq, Repr
+
+/-- the two species options of the potable command line as argparse leaves them (`None` when the option was not given; `[]` when given without a label) -/
+structure CliArgs where
+  include_species : Option (List String)
+  exclude_species : Option (List String)
+deriving Repr, DecidableEq
 
 /-- configuration errors of the key / duplicate checks, identified by their message (`unpack`: Python's own ValueError of `a, b = xs`) -/
 inductive CfgErr where
